@@ -1,4 +1,5 @@
 import EpyVerif.Model.GFFast
+import EpyVerif.Model.NetGF
 open GF in
 def parseRat (s : String) : Rat :=
   match s.splitOn "/" with
@@ -35,6 +36,12 @@ def main : IO Unit := do
   while !line.isEmpty do
     let ws := (line.trimAscii.toString.splitOn " ").filter (· ≠ "")
     match ws, st with
+    | "NET" :: ds, _ =>
+      -- DiscreteGF._coefficientsFromNetwork on a degree sequence
+      let ds := ds.map String.toNat!
+      let cs := NetGF.coeffs ds (NetGF.maxDeg ds)
+      let mean := ((List.range cs.length).zip cs).foldl (fun (m : Rat) x => m + (x.1 : Rat) * x.2) 0
+      IO.println s!"COEFFS {" ".intercalate (cs.map showRat)} SUM {showRat (cs.foldl (· + ·) 0)} MEAN {showRat mean}"
     | ["RESET"], _ => st := []; top := none; dxs := []
     | ["COEFF", i], g :: _ =>
       let t ← match top with
